@@ -161,9 +161,22 @@ Record dset := mkD {
   rowids : list Z;
   store : list (nat * obj);
   fields : list (string * nat);
-  next : nat }.
+  next : nat;
+  colls : list string }.      (* the collections that exist, also the ones that hold no field (any more) *)
 
-Definition empty_dset : dset := mkD 0 [] [] [] 0.
+Definition empty_dset : dset := mkD 0 [] [] [] 0 [].
+
+(* "a.b.c" lies in the collections "a" and "a.b" *)
+Fixpoint prefixes_aux (acc s : string) : list string :=
+  match s with
+  | EmptyString => []
+  | String c r => if Ascii.eqb c "."%char then acc :: prefixes_aux (acc ++ ".")%string r
+                  else prefixes_aux (acc ++ String c EmptyString)%string r
+  end.
+Definition prefixes (p : string) : list string := prefixes_aux EmptyString p.
+Definition is_under (c p : string) : bool := existsb (String.eqb c) (prefixes p).
+Definition add_colls (cs new : list string) : list string :=
+  fold_left (fun acc c => if existsb (String.eqb c) acc then acc else acc ++ [c]) new cs.
 
 Definition set_rows (ob : obj) (rows : list cell) : obj :=
   mkObj (okind ob) (otwo ob) (owidth ob) (ounit ob) rows (orefs ob).
@@ -175,7 +188,7 @@ Definition field_obj (d : dset) (p : string) : option obj :=
 Definition take_obj (ix : list nat) (ob : obj) : obj := set_rows ob (take fillcell_d ix (orows ob)).
 Definition take_all (ix : list nat) (d : dset) : dset :=
   mkD (length ix) (take 0%Z ix (rowids d))
-      (map (fun x => (fst x, take_obj ix (snd x))) (store d)) (fields d) (next d).
+      (map (fun x => (fst x, take_obj ix (snd x))) (store d)) (fields d) (next d) (colls d).
 
 (* ------------------------------------------------------------------ the memo walk of subset / sort
    Dataset.subset and the sort of merge_with call field.subset(idx, memo) for every field; PositionArray.subset /
@@ -201,7 +214,7 @@ Fixpoint walk_list (rec : wst -> nat -> option (wst * nat)) (rl : list (string *
       end
   end.
 
-Fixpoint walk (fuel : nat) (f : obj -> obj) (old : list (nat * obj)) (path : list nat) (w : wst) (o : nat)
+Fixpoint walk (fuel : nat) (f : nat -> obj -> obj) (old : list (nat * obj)) (path : list nat) (w : wst) (o : nat)
   : option (wst * nat) :=
   match fuel with
   | 0 => None
@@ -216,7 +229,7 @@ Fixpoint walk (fuel : nat) (f : obj -> obj) (old : list (nat * obj)) (path : lis
               match walk_list (walk fu f old (o :: path)) (orefs ob) w with
               | Some (w1, rs) =>
                   let n := wnext w1 in
-                  Some (mkW ((o, n) :: wmemo w1) ((n, set_refs (f ob) rs) :: wnew w1) (S n), n)
+                  Some (mkW ((o, n) :: wmemo w1) ((n, set_refs (f o ob) rs) :: wnew w1) (S n), n)
               | None => None
               end
           end
@@ -224,13 +237,13 @@ Fixpoint walk (fuel : nat) (f : obj -> obj) (old : list (nat * obj)) (path : lis
   end.
 
 (* all fields, one memo *)
-Definition walk_fields (fuel : nat) (f : obj -> obj) (old : list (nat * obj)) (fl : list (string * nat)) (w : wst)
+Definition walk_fields (fuel : nat) (f : nat -> obj -> obj) (old : list (nat * obj)) (fl : list (string * nat)) (w : wst)
   : option (wst * list (string * nat)) := walk_list (walk fuel f old []) fl w.
 
 (* Dataset.subset(idx) / the sort of merge_with as the code performs it *)
 Definition subset_walk (d : dset) (ix : list nat) : option dset :=
-  match walk_fields (S (length (store d))) (take_obj ix) (store d) (fields d) (mkW [] [] (next d)) with
-  | Some (w, fs) => Some (mkD (length ix) (take 0%Z ix (rowids d)) (wnew w) fs (wnext w))
+  match walk_fields (S (length (store d))) (fun _ => take_obj ix) (store d) (fields d) (mkW [] [] (next d)) with
+  | Some (w, fs) => Some (mkD (length ix) (take 0%Z ix (rowids d)) (wnew w) fs (wnext w) (colls d))
   | None => None
   end.
 
@@ -243,13 +256,13 @@ Definition extend_empty_walk (early_return : bool) (d : dset) (both : list strin
   let fb := filter in_both (fields d) in
   let fs := filter (fun pf => negb (in_both pf)) (fields d) in
   let fuel := S (length (store d)) in
-  match walk_fields fuel (fun ob => ob) (store d) fb (mkW [] [] (next d)) with
+  match walk_fields fuel (fun _ ob => ob) (store d) fb (mkW [] [] (next d)) with
   | Some (w1, fb') =>
       if early_return then
-        Some (mkD (num_obs d) (rowids d) (wnew w1 ++ store d) (fb' ++ fs) (wnext w1))
+        Some (mkD (num_obs d) (rowids d) (wnew w1 ++ store d) (fb' ++ fs) (wnext w1) (colls d))
       else
-        match walk_fields fuel (fun ob => ob) (store d) fs w1 with
-        | Some (w2, fs') => Some (mkD (num_obs d) (rowids d) (wnew w2) (fb' ++ fs') (wnext w2))
+        match walk_fields fuel (fun _ ob => ob) (store d) fs w1 with
+        | Some (w2, fs') => Some (mkD (num_obs d) (rowids d) (wnew w2) (fb' ++ fs') (wnext w2) (colls d))
         | None => None
         end
   | None => None
@@ -321,7 +334,7 @@ Definition add_field (d : dset) path k two w unit vals refs : option dset :=
         | Some (news, nx, rs) =>
             Some (mkD (num_obs d) (rowids d)
                       (store d ++ [(next d, mkObj k two w unit (mk_rows (rowids d) vals) rs)] ++ news)
-                      (fields d ++ [(path, next d)]) nx)
+                      (fields d ++ [(path, next d)]) nx (add_colls (colls d) (prefixes path)))
         | None => None
         end
       else None                                              (* ValueError: wrong number of values *)
@@ -423,7 +436,67 @@ Definition extend (q : quirks) (d o : dset) : option dset :=
                 (st1 ++ map (fun x => (bmap (fst x), prepend_fill n1 (remap bmap (snd x)))) unp)
                 (fields d ++ flat_map (fun pf => match slookup (fst pf) (fields d) with
                                                  | Some _ => [] | None => [(fst pf, bmap (snd pf))] end) (fields o))
-                (next d + length unp))
+                (next d + length unp) (add_colls (colls d) (colls o)))
+  end.
+
+(* -- extend as the code performs it: the memo walk over the objects that are extended together.
+   `ext_graph` is the situation before any row is moved: the objects of self (references of a paired object:
+   its own and the ones only the other object has) and copies of the objects only other has, all with their
+   rows untouched.  `xrows id ob` is what insert() / append_empty / prepend_empty build for object `id` when the
+   walk reaches it: rows of self ++ converted rows of the partner, rows ++ fill, fill ++ rows.  `extend_walk`
+   walks the fields with one memo (walk_fields), exactly like subset. *)
+Definition ext_graph (d o : dset)
+  : option (list (nat * obj) * (nat -> obj -> obj) * list (string * nat) * nat) :=
+  match extend all_off d o with
+  | None => None
+  | Some _ =>
+      let n1 := num_obs d in let n2 := num_obs o in
+      let pr := all_pairs d o in
+      let unp := filter (fun x => negb (existsb (fun ab => Nat.eqb (snd ab) (fst x)) pr)) (store o) in
+      let fresh := combine (map fst unp) (seq (next d) (length unp)) in
+      let bmap := fun b => match find (fun ab => Nat.eqb (snd ab) b) pr with
+                           | Some ab => fst ab
+                           | None => match lookup b fresh with Some n => n | None => 0 end
+                           end in
+      let partner := fun id => match find (fun ab => Nat.eqb (fst ab) id) pr with
+                               | Some ab => lookup (snd ab) (store o)
+                               | None => None end in
+      let g_self := map (fun x =>
+          match partner (fst x) with
+          | Some ob =>
+              if Nat.eqb n1 0 then (fst x, set_rows (remap bmap ob) (orows (snd x)))
+              else (fst x, set_refs (snd x)
+                     (orefs (snd x) ++ flat_map (fun ar => match slookup (fst ar) (orefs (snd x)) with
+                                                          | Some _ => [] | None => [(fst ar, bmap (snd ar))] end) (orefs ob)))
+          | None => x
+          end) (store d) in
+      let g_other := map (fun x => (bmap (fst x), remap bmap (snd x))) unp in
+      let xrows := fun id ob =>
+          match partner id with
+          | Some ob2 =>
+              if Nat.eqb n1 0 then set_rows ob (orows ob2)
+              else match lookup id (store d) with
+                   | Some oa => match factors oa ob2 with
+                                | Some fs => set_rows ob (orows ob ++ map (conv (okind oa) fs) (orows ob2))
+                                | None => ob end
+                   | None => ob end
+          | None => if existsb (fun x => Nat.eqb (fst x) id) (store d) then append_fill n2 ob else prepend_fill n1 ob
+          end in
+      Some (g_self ++ g_other, xrows,
+            fields d ++ flat_map (fun pf => match slookup (fst pf) (fields d) with
+                                            | Some _ => [] | None => [(fst pf, bmap (snd pf))] end) (fields o),
+            next d + length unp)
+  end.
+
+Definition extend_walk (d o : dset) : option dset :=
+  match ext_graph d o with
+  | Some (g, xrows, fl, nx) =>
+      match walk_fields (S (length g)) xrows g fl (mkW [] [] nx) with
+      | Some (w, fs) => Some (mkD (num_obs d + num_obs o) (rowids d ++ rowids o) (wnew w) fs (wnext w)
+                                  (add_colls (colls d) (colls o)))
+      | None => None
+      end
+  | None => None
   end.
 
 (* -- merge_with(..., sort_by) *)
@@ -559,7 +632,8 @@ Definition difference (d o : dset) (ps : list string) : option dset :=
           let objs := concat fl ++ il in
           let ids := seq 0 (length objs) in
           Some (mkD (length sidx) (take 0%Z sidx (rowids d))
-                    (combine ids (map snd objs)) (combine (map fst objs) ids) (length objs))
+                    (combine ids (map snd objs)) (combine (map fst objs) ids) (length objs)
+                    (filter (fun c => existsb (String.eqb c) (colls o)) (colls d)))
       | _, _ => None
       end
   end.
@@ -589,26 +663,64 @@ Definition unique_vals (d : dset) (p : string) : option (list payload) :=
   end.
 
 (* ------------------------------------------------------------------ one step, histories *)
-Definition step (q : quirks) (d : dset) (o : op) : option dset :=
+Definition step0 (q : quirks) (d : dset) (o : op) : option dset :=
   match o with
   | New n base => match fields d with
-                  | [] => Some (mkD n (zseq base n) [] [] (next d))      (* no fields: nothing is reachable *)
+                  | [] => match colls d with
+                          | [] => Some (mkD n (zseq base n) [] [] (next d) [])      (* no fields: nothing is reachable *)
+                          | _ => None end
                   | _ => None end
   | Add path k two w unit vals refs => add_field d path k two w unit vals refs
   | SubsetMask m => if Nat.eqb (length m) (num_obs d) then Some (take_all (mask_idx m) d) else None
   | SubsetIdx ix =>
       if forallb (fun i => Nat.ltb i (num_obs d)) ix then
         let d' := take_all ix d in
-        Some (if q_subset_sum q then mkD (list_sum ix) (rowids d') (store d') (fields d') (next d') else d')
+        Some (if q_subset_sum q then mkD (list_sum ix) (rowids d') (store d') (fields d') (next d') (colls d') else d')
       else None
   | Extend o => extend q d o
   | Merge os s => merge q d os s
   | Difference o ps => difference d o ps
   | Del p => match slookup p (fields d) with
              | Some _ => Some (mkD (num_obs d) (rowids d) (store d)
-                                   (filter (fun pf => negb (String.eqb (fst pf) p)) (fields d)) (next d))
+                                   (filter (fun pf => negb (String.eqb (fst pf) p)) (fields d)) (next d) (colls d))
              | None => None end
-  | AddColl _ | Filter _ | Unique _ => Some d
+  | AddColl p =>
+      if existsb (String.eqb p) (colls d) || match slookup p (fields d) with Some _ => true | None => false end
+      then None                                               (* FieldExistsError *)
+      else Some (mkD (num_obs d) (rowids d) (store d) (fields d) (next d) (add_colls (colls d) (prefixes p ++ [p])))
+  | Filter _ | Unique _ => Some d
+  end.
+
+(* well-formed reference structure: identities are unique, every reference (and every field) names an object of
+   the store, and there is no reference cycle - `depth` is the length of the longest reference chain below an
+   object, None when a reference dangles or the chain is longer than the store (a cycle) *)
+Fixpoint depth (fuel : nat) (st : list (nat * obj)) (o : nat) : option nat :=
+  match fuel with
+  | 0 => None
+  | S f =>
+      match lookup o st with
+      | None => None
+      | Some ob =>
+          fold_left (fun acc ar => match acc, depth f st (snd ar) with
+                                   | Some m, Some k => Some (Nat.max m (S k))
+                                   | _, _ => None end) (orefs ob) (Some 0)
+      end
+  end.
+Fixpoint nodup_b (l : list nat) : bool :=
+  match l with [] => true | x :: r => negb (existsb (Nat.eqb x) r) && nodup_b r end.
+Definition wf_store (st : list (nat * obj)) : bool :=
+  nodup_b (map fst st)
+  && forallb (fun x => match depth (S (length st)) st (fst x) with Some _ => true | None => false end) st.
+Definition wf_dset (d : dset) : bool :=
+  wf_store (store d)
+  && forallb (fun pf => match lookup (snd pf) (store d) with Some _ => true | None => false end) (fields d).
+
+(* one operation of the model: the operation proper, and the result has a well-formed reference structure (an
+   operation that would create a dangling or cyclic reference is outside the model: None) *)
+Definition step (q : quirks) (d : dset) (o : op) : option dset :=
+  match step0 q d o with
+  | Some d' => if wf_dset d' then Some d' else None
+  | None => None
   end.
 
 Fixpoint run (q : quirks) (d : dset) (ops : list op) : option dset :=
@@ -628,6 +740,7 @@ Record oobj := mkO {
 
 Inductive obs :=
 | OState (n : nat) (flds : list (string * nat * nat)) (objs : list (nat * oobj))   (* field: (path, object, field.num_obs) *)
+         (cs : list (string * nat))                                                 (* collection: (path, len(collection)) *)
 | ORaise
 | OSkip                                                                            (* step not observed *)
 | OMask (m : list bool)
@@ -683,7 +796,36 @@ Definition match_state (d : dset) (n : nat) (flds : list (string * nat * nat)) (
      | None => false
      end.
 
-Definition set_num_obs (d : dset) (n : nat) : dset := mkD n (rowids d) (store d) (fields d) (next d).
+(* len(collection) (Collection.__len__): the number of rows of the first field in it (at any depth) that has
+   rows; a collection that holds no fields has length 0 *)
+Definition coll_len (d : dset) (c : string) : nat :=
+  match find (fun pf => is_under c (fst pf)) (fields d) with
+  | Some pf => match lookup (snd pf) (store d) with Some ob => length (orows ob) | None => 0 end
+  | None => 0
+  end.
+Definition colls_match (d : dset) (cs : list (string * nat)) : bool :=
+  Nat.eqb (length (colls d)) (length cs)
+  && forallb (fun cl => existsb (String.eqb (fst cl)) (colls d) && Nat.eqb (coll_len d (fst cl)) (snd cl)) cs.
+
+Definition set_num_obs (d : dset) (n : nat) : dset := mkD n (rowids d) (store d) (fields d) (next d) (colls d).
+
+(* the walk model of extend agrees with the pairing specification (same table, same sharing), evaluated for every
+   extend / merge_with of every history of the correspondence *)
+Definition as_observed (d : dset) : list (string * nat * nat) * list (nat * oobj) :=
+  (map (fun pf => (fst pf, snd pf, num_obs d)) (fields d),
+   map (fun x => (fst x, mkO (okind (snd x)) (otwo (snd x)) (kwidth (okind (snd x)) (otwo (snd x)) (owidth (snd x)))
+                             (ounit (snd x)) (map cval (orows (snd x))) (orefs (snd x)))) (store d)).
+Definition walk_agrees (d o : dset) : bool :=
+  match extend all_off d o, extend_walk d o with
+  | Some ds, Some dw => let (flds, objs) := as_observed dw in match_state ds (num_obs dw) flds objs
+  | None, None => true
+  | _, _ => false
+  end.
+Fixpoint walk_agrees_all (d : dset) (os : list dset) : bool :=
+  match os with
+  | [] => true
+  | o :: r => walk_agrees d o && match extend all_off d o with Some d' => walk_agrees_all d' r | None => true end
+  end.
 
 (* -- classes of the known deviations (only consulted when the specification does not match) *)
 (* the same comparison without object identities: every field and reference equal by value *)
@@ -784,6 +926,12 @@ Definition nested_drop_class (d o : dset) : bool :=
   Nat.eqb (num_obs d) 0
   && existsb (fun pf => negb (has_field o (fst pf))
                         && existsb (fun qf => same_collection (fst pf) (fst qf)) (fields o)) (fields d).
+(* a collection of self that holds no fields reports 0 rows: Collection._extend takes the fields other has in it
+   over without padding (c09_collection_len_is_first_field) *)
+Definition coll_len_class (d o : dset) : bool :=
+  negb (Nat.eqb (num_obs d) 0)
+  && existsb (fun c => negb (Nat.eqb (coll_len d c) (num_obs d))
+                       && existsb (fun pf => is_under c (fst pf)) (fields o)) (colls d).
 Fixpoint class_any (cls : dset -> dset -> bool) (d : dset) (os : list dset) : bool :=
   match os with
   | [] => false
@@ -811,31 +959,32 @@ Definition classify_extend (d : dset) (os : list dset) (s : option string) (b : 
   let refs_class :=
     if attr_fill_any d os then
       match b, merge all_off d os s with
-      | OState n flds objs, Some d' => if plain_fields_match d' n flds objs then 4%Z else 1%Z
+      | OState n flds objs _, Some d' => if plain_fields_match d' n flds objs then 4%Z else 1%Z
       | ORaise, _ => 4%Z
       | _, _ => 1%Z
       end
     else 1%Z in
   let other_classes :=
     if Z.eqb refs_class 4 then 4%Z
+    else if class_any coll_len_class d os then 8%Z
     else if class_any nested_pad_class d os then 6%Z
     else if class_any nested_drop_class d os then 7%Z
     else 1%Z in
   match b, merge all_off d os s with
-  | OState n flds objs, Some d' => if match_values d' n flds objs then 5%Z else other_classes
+  | OState n flds objs _, Some d' => if match_values d' n flds objs then 5%Z else other_classes
   | _, _ => other_classes
   end.
 
 Definition classify (d : dset) (o : op) (b : obs) : Z :=
   match o, b with
-  | SubsetIdx ix, OState n flds objs =>
+  | SubsetIdx ix, OState n flds objs _ =>
       match step all_off d o with
       | Some d' => if Nat.eqb n (list_sum ix) && match_state (set_num_obs d' n) n (map (fun f => (fst f, n)) flds) objs
                       && forallb (fun f => Nat.eqb (snd f) (length ix)) flds
                    then 2%Z else 1%Z
       | None => 1%Z
       end
-  | Merge os (Some p), OState n flds objs =>
+  | Merge os (Some p), OState n flds objs _ =>
       match extend_all all_off d os, merge all_off d os (Some p) with
       | Some d1, Some d' =>
           if match_values d' n flds objs then 5%Z else
@@ -871,18 +1020,25 @@ Definition in_domain (d : dset) (o : op) : bool :=
 (* verdict of one history: 0 = every step equals the specification; 15 + 16 * step = the history left
    the domain of the model at that step (incongruent sharing) and is not judged further; otherwise
    16 * (index of the first deviating step) + class   (1 unexplained, 2 subset-sum, 3 unstable sort,
-   4 fill rows for an object with references, 5 sharing lost) *)
+   4 fill rows for an object with references, 5 sharing lost, 6/7 nested collections, 8 empty collection;
+   9 = the model's own extend walk and extend specification disagree - a defect of the model) *)
 Fixpoint check_from (d : dset) (k : Z) (l : list (op * obs)) : Z :=
   match l with
   | [] => 0%Z
   | (o, b) :: r =>
+      let walk_ok := match o with
+                     | Extend x => walk_agrees_all d [x]
+                     | Merge os _ => walk_agrees_all d os
+                     | _ => true end in
+      if negb walk_ok then (16 * k + 9)%Z else
       let bad := (16 * k + (if in_domain d o then classify d o b else 15))%Z in
       match step all_off d o, b with
       | None, ORaise => 0%Z                                    (* both refuse; the history ends *)
       | None, _ => bad
       | Some _, ORaise => bad
       | Some d', OSkip => check_from d' (k + 1)%Z r
-      | Some d', OState n flds objs => if match_state d' n flds objs then check_from d' (k + 1)%Z r else bad
+      | Some d', OState n flds objs cs =>
+          if match_state d' n flds objs && colls_match d' cs then check_from d' (k + 1)%Z r else bad
       | Some d', OMask m =>
           match o with
           | Filter cs => if opt_eqb (list_eqb Bool.eqb) (filter_mask d cs) (Some m) then check_from d' (k + 1)%Z r else bad
